@@ -983,6 +983,34 @@ pub fn run_c17(a: &Args, rep: &mut Report) {
         // make the distinct count reflect the enumeration without storing 2^32 hashes
     }
 
+    // to_insn_vec vs get_insn on long programs (every index)
+    if !cfg!(miri) && a.shard % 4 == 0 {
+        for len in [8_191usize, 8_193, 20_000, 70_000] {
+            let prog = rng.bytes(len * 8);
+            rep.case(Some(fnv(&prog[..64]) ^ len as u64));
+            let r = sys::catch(|| {
+                let all = rbpf::ebpf::to_insn_vec(&prog);
+                let mut bad = None;
+                if all.len() != len {
+                    bad = Some(usize::MAX);
+                }
+                for (i, ins) in all.iter().enumerate() {
+                    if *ins != rbpf::ebpf::get_insn(&prog, i) || ins.to_array()[..] != prog[i * 8..i * 8 + 8] {
+                        bad = Some(i);
+                        break;
+                    }
+                }
+                bad
+            });
+            rep.set("long_to_insn_vec", format!("{len}"));
+            match r {
+                Ok(None) => {}
+                Ok(Some(i)) => rep.violation("C17:to_insn_vec-differs:long-program", format!("to_insn_vec of a {len}-instruction program: entry {i} differs from get_insn / the encoded bytes"), json!({"kind": "insn-case", "len": len, "index": i})),
+                Err(p) => rep.violation(&format!("C17:panic:{}", sys::panic_site(&p)), p, json!({"kind": "insn-case", "len": len})),
+            }
+        }
+    }
+
     // --- builders
     let table = asm_table();
     let n_b = ((if q { 200_000.0 } else { 10_000_000.0 }) * a.scale) as u64 / a.nshards;
